@@ -462,16 +462,20 @@ impl Hook for Driver {
         }
         if g.threads[me].token {
             g.threads[me].token = false;
+            g.trace.push(TraceEv { tid: me as i64, kind: "PARK", a: [1, -1, -1, -1, -1, -1] });
             return;
         }
+        g.trace.push(TraceEv { tid: me as i64, kind: "PARK", a: [0, -1, -1, -1, -1, -1] });
         g.threads[me].state = TState::Parked;
         let _g = self.switch(g, me, false);
     }
 
     fn unpark(&self, thread: &Thread) {
         let mut g = self.inner.lock().unwrap_or_else(|e| e.into_inner());
+        let me = Self::me(&g).map_or(-1, |m| m as i64);
         if let Some(&t) = g.by_os.get(&thread.id()) {
             g.threads[t].token = true;
+            g.trace.push(TraceEv { tid: me, kind: "UNPARK", a: [t as i64, -1, -1, -1, -1, -1] });
         }
     }
 
